@@ -1,4 +1,60 @@
-import Heathcliff.Model.Scheme
+import Heathcliff.Proofs.C02K
+
+/- Property theorems only (statements verbatim; proofs are the helper lemmas of Heathcliff/Proofs). -/
 namespace HC.C02
-theorem placeholder : trimPlain #[0, 0] = #[0] := by decide
+open HC
+open Finset
+variable {R : Type} [CommRing R]
+
+/-- INDEX ARITHMETIC: for output polynomial i the loop visits exactly the pairs (a, b), a < n1, b < n2, a + b = i, each once -/
+theorem mulPairs_spec {n1 n2 i : Nat} (h1 : 1 ≤ n1) (h2 : 1 ≤ n2) (hi : i < n1 + n2 - 1) :
+    (mulPairs n1 n2 i).Nodup ∧ ∀ a b, (a, b) ∈ mulPairs n1 n2 i ↔ (a < n1 ∧ b < n2 ∧ a + b = i) := HC.mulPairs_spec h1 h2 hi
+
+/-- PRODUCT: the polynomials d_i = Σ_{(a,b) ∈ mulPairs} c_a·e_b, i < n1+n2-1, have phase(c)·phase(e) — for every pair of sizes -/
+theorem ct_mul_phase {n1 n2 : Nat} (h1 : 1 ≤ n1) (h2 : 1 ≤ n2) (c e : Nat → R) (s : R) :
+    ctPhase (n1 + n2 - 1) (fun i => ((mulPairs n1 n2 i).map (fun p => c p.1 * e p.2)).sum) s
+      = ctPhase n1 c s * ctPhase n2 e s := HC.ct_mul_phase h1 h2 c e s
+
+/-- ADD / SUB of ciphertexts of different sizes: the shorter operand is zero-extended; in a subtraction the polynomials taken
+    over from a larger subtrahend are negated -/
+theorem translate_phase (n1 n2 : Nat) (sub : Bool) (a b : Nat → R) (s : R) :
+    ctPhase (max n1 n2) (fun i => ((translateShape n1 n2).map (trVal sub a b)).getD i 0) s
+      = if sub then ctPhase n1 a s - ctPhase n2 b s else ctPhase n1 a s + ctPhase n2 b s := HC.translate_phase n1 n2 sub a b s
+
+/-- negation -/
+theorem negate_phase (n : Nat) (a : Nat → R) (s : R) : ctPhase n (fun i => - a i) s = - ctPhase n a s := HC.negate_phase n a s
+
+/-- multiplication by a plaintext polynomial p (every ciphertext polynomial multiplied by p) -/
+theorem mul_plain_phase (n : Nat) (a : Nat → R) (p s : R) : ctPhase n (fun i => a i * p) s = ctPhase n a s * p := HC.mul_plain_phase n a p s
+
+/-- adding a plaintext touches only c_0 -/
+theorem add_plain_phase (n : Nat) (hn : 1 ≤ n) (a : Nat → R) (p s : R) :
+    ctPhase n (fun i => if i = 0 then a i + p else a i) s = ctPhase n a s + p := HC.add_plain_phase n hn a p s
+
+/-- BALANCING: whenever `balance_correction_factors` succeeds, e1·f1 ≡ e2·f2 ≡ f (mod t) and f < t -/
+theorem balance_spec {t : Modulus} (ht : t.WF) {f1 f2 f e1 e2 : Nat} (h1 : f1 < t.value) (h2 : f2 < t.value)
+    (h : balanceCorrectionFactors f1 f2 t = .ok (f, e1, e2)) :
+    (e1 * f1) % t.value = f ∧ (e2 * f2) % t.value = f ∧ f < t.value := HC.balance_spec ht h1 h2 h
+
+/-- and it always succeeds for unit factors -/
+theorem balance_total {t : Modulus} (ht : t.WF) {f1 f2 : Nat} (h1 : f1 < t.value) (h2 : f2 < t.value)
+    (hc1 : Nat.Coprime f1 t.value) : ∃ r, balanceCorrectionFactors f1 f2 t = .ok r := HC.balance_total ht h1 h2 hc1
+
+/-- SUM UNDER BALANCING: if phase_k ≡ f_k·m_k (mod t) then e1·phase1 + e2·phase2 ≡ f·(m1 + m2) (mod t) -/
+theorem bgv_add_balanced {t : Int} {f1 f2 f e1 e2 p1 p2 m1 m2 : Int}
+    (hp1 : p1 ≡ f1 * m1 [ZMOD t]) (hp2 : p2 ≡ f2 * m2 [ZMOD t])
+    (he1 : e1 * f1 ≡ f [ZMOD t]) (he2 : e2 * f2 ≡ f [ZMOD t]) :
+    e1 * p1 + e2 * p2 ≡ f * (m1 + m2) [ZMOD t] := HC.bgv_add_balanced hp1 hp2 he1 he2
+
+/-- PRODUCT: correction factors multiply -/
+theorem bgv_mul_factor {t : Int} {f1 f2 p1 p2 m1 m2 : Int}
+    (hp1 : p1 ≡ f1 * m1 [ZMOD t]) (hp2 : p2 ≡ f2 * m2 [ZMOD t]) :
+    p1 * p2 ≡ (f1 * f2) * (m1 * m2) [ZMOD t] := HC.bgv_mul_factor hp1 hp2
+
+theorem prog_hom {S T : Type} [CommRing S] [CommRing T] (dec : S →+* T) (inp pl : Nat → S) (p : Prog) :
+    dec (p.eval inp pl) = p.eval (fun k => dec (inp k)) (fun k => dec (pl k)) := HC.prog_hom dec inp pl p
+
+/-- non-vacuity: sizes 3 × 2: output polynomial 2 collects the pairs (1,1), (2,0) -/
+example : mulPairs 3 2 2 = [(1, 1), (2, 0)] := by decide
+
 end HC.C02
